@@ -11,7 +11,7 @@
   Deviations of the pinned tree that are transcribed faithfully in ALG (SPEC keeps the property's meaning);
   each has a region predicate at the end of the ALG section with the same name as in harness/props/C03.py:
     byteswapNoRepeatPastEnd, setRangeAsSlice, setSliceIntStepRegion, setSliceIntNegStep,
-    setAllEmpty, emptyOperandBadPos, replaceCountZeroUnchecked.
+    setAllEmpty, emptyOperandBadPos.
 -/
 import BitstringModel.Model.Basic
 import BitstringModel.Model.C01
@@ -533,11 +533,11 @@ def _replace (l old new : Bits) (s e : Nat) (count : Int) (aligned : Bool) : Nat
 /-- `BitArray.replace` / `BitStream.replace` (bitarray_.py: def replace). -/
 def replace (l : Bits) (old new : Operand) (s e : Option Int) (count : Option Int) (aligned : Bool) :
     Except Err (Nat × Bits) :=
-  if count = some 0 then .ok (0, l) else
   if (old.val l).length = 0 then .error .value else
   match validateSlice l.length s e with
   | .error err => .error err
   | .ok (a, z) =>
+    if count = some 0 then .ok (0, l) else
     -- `if new is self: new = copy.copy(self)` — same value
     .ok (_replace l (old.val l) (new.val l) a z (count.getD 0) aligned)
 
@@ -700,14 +700,6 @@ def setAllEmpty (l : Bits) (p : PosArg) : Bool := l.length == 0 && p == .all
 def emptyOperandBadPos (l : Bits) (b : Operand) (pos : Int) : Bool :=
   (b.val l).length == 0 && (Spec.insPos l.length pos).isNone
 
-/-- `replace(..., count=0)` returns before `old` and the range are validated. -/
-def replaceCountZeroUnchecked (l : Bits) (old : Operand) (s e : Option Int) (count : Option Int) : Bool :=
-  count == some 0 &&
-  ((old.val l).length == 0 ||
-    match validateSlice l.length s e with
-    | .error _ => true
-    | .ok _ => false)
-
 /-! ## Operations as data; one step; histories -/
 
 inductive Op where
@@ -782,7 +774,6 @@ def Op.deviant (l : Bits) : Op → Bool
   | .insert b pos => emptyOperandBadPos l b pos
   | .overwrite b pos => emptyOperandBadPos l b pos
   | .setSlice a b c (.int _) => setSliceIntNegStep l a b c || setSliceIntStepRegion l a b c
-  | .replace old _ s e count _ => replaceCountZeroUnchecked l old s e count
   | .set _ (.range a b c) => setRangeAsSlice l a b c
   | .set _ p => setAllEmpty l p
   | .byteswap f s e rep => byteswapNoRepeatPastEnd l f s e rep
@@ -797,7 +788,7 @@ def Op.keepsLength : Op → Bool
 /-- Operations that have no known-deviation region at all. -/
 def Op.neverDeviant : Op → Bool
   | .append _ | .prepend _ | .delItem _ | .delSlice _ _ _ | .setItem _ _ | .setSlice _ _ _ (.bits _)
-  | .reverse _ _ | .rol _ _ _ | .ror _ _ _ | .invert _ | .set _ (.one _) | .set _ (.many _)
+  | .replace _ _ _ _ _ _ | .reverse _ _ | .rol _ _ _ | .ror _ _ _ | .invert _ | .set _ (.one _) | .set _ (.many _)
   | .ishl _ | .ishr _ | .imul _ | .iand _ | .ior _ | .ixor _ | .clear => true
   | _ => false
 
